@@ -409,11 +409,14 @@ func (ty *ArrayType) Assignable(other ExprType) bool {
 func (ty *ArrayType) Merge(other ExprType) ExprType {
 	switch other := other.(type) {
 	case *ArrayType:
+		// When an element type is unknown, the result is an array filtered by object filter if either
+		// side is. Otherwise which side is returned (and whether the following property access is
+		// accepted) would depend on how precisely the element types are known
 		if _, ok := ty.Elem.(AnyType); ok {
-			return ty
+			return &ArrayType{ty.Elem, ty.Deref || other.Deref}
 		}
 		if _, ok := other.Elem.(AnyType); ok {
-			return other
+			return &ArrayType{other.Elem, ty.Deref || other.Deref}
 		}
 		return &ArrayType{
 			Elem:  ty.Elem.Merge(other.Elem),
